@@ -103,6 +103,7 @@ type Interp struct {
 	yield   chan yieldMsg
 	runq    []int
 
+	drained     map[*[]Value][]Value
 	roCells     map[*Value]bool
 	crashes     []*targetPanic
 	usedStubs   map[string]int
